@@ -436,7 +436,10 @@ def op_third_path_config_demo_style(s):
 def op_name_patterns(s):
     """Free-text keys get a value pattern that excludes '/' and the file-name separator ('[^/_]+'); the first basetype also gets
     a level more, so that no other basetype has a leaf type of the same depth with pattern-free templates."""
-    s = op_insert_level(s)
+    if not any(k == "variant" for k, _, _ in s["basetypes"][0]["chain"]):
+        s = op_insert_level(s)
+    else:
+        s = copy.deepcopy(s)
     s["open_pattern"] = "[^/%s]+" % s["sep"]
     return s
 
